@@ -45,6 +45,7 @@
 #include "opentelemetry/metrics/meter.h"
 #include "opentelemetry/metrics/observer_result.h"
 #include "opentelemetry/metrics/sync_instruments.h"
+#include "opentelemetry/sdk/common/global_log_handler.h"
 #include "opentelemetry/sdk/metrics/data/metric_data.h"
 #include "opentelemetry/sdk/metrics/data/point_data.h"
 #include "opentelemetry/sdk/metrics/export/metric_producer.h"
@@ -823,6 +824,9 @@ static int do_record(uint64_t seed, int n, int minops, int maxops, bool sgauge)
 int main(int argc, char **argv)
 {
   std::string mode = argc > 1 ? argv[1] : "";
+  // the SDK's internal diagnostics go to stdout by default; this harness owns stdout
+  opentelemetry::sdk::common::internal_log::GlobalLogHandler::SetLogLevel(
+      opentelemetry::sdk::common::internal_log::LogLevel::None);
   if (mode == "caps")
   {
 #if OPENTELEMETRY_ABI_VERSION_NO >= 2
